@@ -274,9 +274,32 @@ theorem commit2_shape {w : WState} {qi ei abi lbi : Nat} {lq le : AcctV} {ab lb 
     · rw [hx]; exact hq
   · rw [hx]; exact he
 
+theorem zeroed_shape : Shape Transfer.zeroedSlots := by
+  refine ⟨by simp [Transfer.zeroedSlots], by simp [keys, Transfer.zeroedSlots, Account.emptySlot, List.replicate, List.filter], ?_⟩
+  simp [Transfer.zeroedSlots, List.pairwise_replicate]
+
 theorem step_shape (w : WState) (op : WOp) (hw : WShape w) : WShape (w.step op) := by
   cases op with
   | tick dt => exact hw
+  | transfer ai signer newKey newAuth ok =>
+    simp only [WState.step]
+    split
+    · exact hw
+    · split
+      · rename_i a ha
+        split
+        · rename_i o n ho
+          obtain ⟨e1, e2, _, _⟩ := transferIx_ok ho
+          intro x hx
+          simp only at hx
+          rcases List.mem_append.mp hx with hx | hx
+          · rcases List.mem_or_eq_of_mem_set hx with hx | hx
+            · exact hw x hx
+            · rw [hx, e1]; exact zeroed_shape
+          · rw [List.mem_singleton] at hx
+            rw [hx, e2]; exact hw a (List.mem_of_getElem? ha)
+        · exact hw
+      · exact hw
   | accrue bi =>
     simp only [WState.step]
     split
